@@ -98,7 +98,7 @@ def p_globals(t):
 def p_defs(t):
     if t[0] != "out":
         return t
-    return [[[i[0], def_reg(i)] for i in root_ctx(b) if def_reg(i) is not None] + [field(b, "reg")] for b in fns_of(t)]
+    return [[def_reg(i) for i in root_ctx(b) if def_reg(i) is not None] + [field(b, "reg")] for b in fns_of(t)]
 
 
 def p_stacks(t):
@@ -156,7 +156,7 @@ PROJ = {"panic": p_panic, "errors": p_errors, "verdict": p_verdict, "first_error
 # ------------------------------------------------------------------------------------------------
 # non-triviality rules (cheap, on the implementation's output text)
 
-def nt_blocks_regs(prog, out):
+def nt_blocks_regs(prog, out, monline=""):
     return out.count("(block ") - out.count("(fns (block") * 0 >= 2 and sum(out.count("(" + k + " ") for k in DEFINING) >= 3
 
 
@@ -174,6 +174,29 @@ PROPS = {
                      "register counter modelled as unbounded N (2^64 allocations needed to wrap)"],
     ),
 }
+
+
+def nt_c07(prog, out, monline=""):
+    from verif import mon_field
+    j = mon_field(monline, "j07")
+    return out.startswith("(out (errors) ") and j is not None and int(j) > 0
+
+
+PROPS["C07"] = dict(
+    title="Operator chains are bracketed by the documented priority table",
+    projection="stacks_verdict",
+    monitor="C07",
+    domain="accepted",
+    rule="corpus + generated programs + the chain stream (functions whose lets are operator chains over extension "
+         "leaves: all priority-class chains up to the tier's length bound, random longer ones); non-trivial = accepted "
+         "program with at least one let initialiser of >= 2 operators whose leaves are extension leaves or bracketed "
+         "chains of them (the monitor then reads the emitted operations back as a tree and compares it with the "
+         "independently computed well-bracketed tree); distinct = distinct program texts",
+    nontrivial=nt_c07,
+    assumptions=["priority table and MAX level are regenerated from /repo/src/ast.rs on every run (coq/Gen/Priority.v)",
+                 "the theorem is about the folding routine; that the emitted operations follow the folded chain is carried "
+                 "by the correspondence check and the monitor (expression lemma not yet proved)"],
+)
 
 
 # ------------------------------------------------------------------------------------------------
@@ -228,7 +251,7 @@ def lints():
 # ------------------------------------------------------------------------------------------------
 # analysis of one pipeline run for one property
 
-def nt_default(prog, out):
+def nt_default(prog, out, monline=""):
     return len(out) > 200
 
 
@@ -314,7 +337,7 @@ def analyse(prop, run):
             e = extra(prog, impl, monline)
             if e:
                 alarms.append((i, e))
-        if dom and nt(prog, impl):
+        if dom and nt(prog, impl, monline):
             h = hashlib.sha1(prog.encode()).hexdigest()
             if h not in seen_nt:
                 seen_nt.add(h)
